@@ -15,6 +15,8 @@ import (
 	"sort"
 	"strings"
 
+	"github.com/Oneledger/protocol/action"
+	govact "github.com/Oneledger/protocol/action/governance"
 	"github.com/Oneledger/protocol/config"
 )
 
@@ -421,6 +423,36 @@ func twinMain(args []string) int {
 	return 0
 }
 
+// c07Probes: transactions for CheckTx only
+func c07Probes(w *World, r *rand.Rand) [][]byte {
+	out := [][]byte{}
+	other := genHistory(r, w, 8, 6)
+	for _, b := range other.Blocks {
+		out = append(out, b.Txs...)
+	}
+	n := 0
+	memo := func() string { n++; return fmt.Sprintf("c07probe%d", n) }
+	GAS = 1000000
+	keysV := []string{"feeOption.minFeeDecimal", "onsOptions.perBlockFees", "onsOptions.baseDomainPrice", "stakingOptions.minSelfDelegationAmount",
+		"stakingOptions.topValidatorCount", "stakingOptions.maturityTime", "propOptions.configUpdate.initialFunding", "propOptions.general.fundingGoal",
+		"propOptions.codeChange.votingDeadline", "propOptions.general.fundingDeadline", "propOptions.configUpdate.passPercentage",
+		"evidenceOptions.minVotesRequired", "evidenceOptions.blockVotesDiff", "evidenceOptions.penaltyBasePercentage", "rewardOptions.unknown"}
+	vals := []string{"0", "1", "2", "8", "64", "1000", "3000000", "1000000000000000000000000", "-1", "x"}
+	for i, k := range keysV {
+		for j, v := range vals {
+			u := w.Users[(i+j)%len(w.Users)]
+			out = append(out, txPropCreateCfg(u, fmt.Sprintf("c07p_%d_%d", i, j), k+":"+v, oltAmt("1000000000"), 10, memo()))
+		}
+	}
+	for _, id := range []string{"cfgfee", "cfgons", "gen1", "lab_vote", "nosuchproposal", "c07p_0_0"} {
+		for _, v := range w.Vals {
+			out = append(out, mkTx(action.PROPOSAL_FINALIZE, govact.FinalizeProposal{ProposalID: propID(id), ValidatorAddress: v.Val.Addr}, GAS, memo(), v.Val))
+		}
+		out = append(out, txExpireVotes(w.Users[0], id, memo()), txPropCancel(w.Users[0], id, memo()), txPropCancel(w.Users[1], id, memo()))
+	}
+	return out
+}
+
 func buildVariants(mode string, w *World, h *History, base *Transcript, r *rand.Rand, rep *TwinReport) []*Variant {
 	switch mode {
 	case "c06":
@@ -445,20 +477,26 @@ func buildVariants(mode string, w *World, h *History, base *Transcript, r *rand.
 		for _, b := range h.Blocks {
 			all = append(all, b.Txs...)
 		}
-		mk := func(name string, prob int) *Variant {
+		// transactions that are only ever CHECKED, never delivered: those of an independent random
+		// history over the same cast, and directed ones (configuration-update proposals for every option
+		// key with in- and out-of-range values, finalize / expire / cancel for known and unknown ids)
+		probes := c07Probes(w, rand.New(rand.NewSource(r.Int63())))
+		mk := func(name string, prob int, pool [][]byte) *Variant {
 			rr := rand.New(rand.NewSource(r.Int63()))
 			return &Variant{Name: name, Checks: func(rp *Replica, b, pos int) {
-				if len(all) == 0 || rr.Intn(100) >= prob {
+				if len(pool) == 0 || rr.Intn(100) >= prob {
 					return
 				}
 				n := 1 + rr.Intn(3)
 				for i := 0; i < n; i++ {
-					rp.CheckTx(all[rr.Intn(len(all))])
+					rp.CheckTx(pool[rr.Intn(len(pool))])
 					rep.ChecksRun++
 				}
 			}}
 		}
-		return []*Variant{mk("checktx-everywhere", 100), mk("checktx-sparse", 25)}
+		mixed := append(append([][]byte{}, all...), probes...)
+		return []*Variant{mk("checktx-everywhere", 100, all), mk("checktx-sparse", 25, all),
+			mk("checktx-never-delivered-everywhere", 100, probes), mk("checktx-mixed-sparse", 35, mixed)}
 	case "c08":
 		vs := []*Variant{}
 		for k := 0; k < 3; k++ {
